@@ -22,12 +22,14 @@ func init() {
 			"copied literally) and STR_TO_DATE by dateparse.formatSpecifiers (a nil entry means 'not supported for parsing'). Decided: (K1) both tables have the same specifier key set (apart from '%'), " +
 			"so no specifier is formatted as a field by one function and treated as unknown/literal by the other; (K2) every value read from the parser table is used only on paths where it " +
 			"was tested non-nil, and the nil branch returns an error (an unsupported specifier is reported, never called or silently skipped); (K3) every nil entry of the formatter table is a key of " +
-			"strftime's defaultSpecifications (otherwise DATE_FORMAT fails for that specifier), and the registration loop uses a table value only after a non-nil test.",
+			"strftime's defaultSpecifications (otherwise DATE_FORMAT fails for that specifier), and the registration loop uses a table value only after a non-nil test. " +
+			"(K4) an invalid date is flagged, not silently shifted: in the date/time conversion functions of sql/types (result time.Time, or methods of the datetime type) no return answers a nil error on a path where an error bound from a call is still pending - not established nil by a plain nil test, not handed on (the parser reports a non-existent date as a best-effort value plus ErrTruncatedIncorrect, and that report must reach the caller); layout probing in parseDatetime and the zero-date short-circuit of ConvertToTime are named exceptions.",
 		NotCovered: "that formatter and parser are inverse on values for each specifier, that strftime's default implementation of a delegated specifier matches MySQL's, " +
 			"interval arithmetic, DATEDIFF/TIMESTAMPDIFF, rejection of invalid dates",
 		Run: func(c *Ctx) {
 			runC31(c, "sql/expression/function", "dateFormatSpecifierToFunc", "sql/planbuilder/dateparse", "formatSpecifiers",
 				"github.com/lestrrat-go/strftime", "defaultSpecifications", 31, 11)
+			runC31Err(c, "sql/types", map[string]bool{"datetimeType": true}, 0)
 		},
 		Fixture: func(c *Ctx, fx *Prog) {
 			expectFixture(c, fx, "c31: key only on one side, unguarded nil use, nil formatter entry without library default must be reported",
@@ -35,8 +37,11 @@ func init() {
 				func(fc *Ctx) {
 					runC31(fc, "testdata/c31/format", "specToFunc", "testdata/c31/parse", "specifiers", "vchk/testdata/c31/lib", "defaults", 0, 0)
 				})
+			expectFixture(c, fx, "c31 err: a conversion answers nil while the parser's truncation report is pending",
+				[]string{"C31-K4:vchk/testdata/c31/tconv.Drops/err<-parse/return t, nil"},
+				func(fc *Ctx) { runC31Err(fc, "testdata/c31/tconv", map[string]bool{}, 0) })
 		},
-		FixturePkgs: []string{"./testdata/c31/format", "./testdata/c31/parse", "./testdata/c31/lib"},
+		FixturePkgs: []string{"./testdata/c31/format", "./testdata/c31/parse", "./testdata/c31/lib", "./testdata/c31/tconv"},
 	})
 }
 
